@@ -632,6 +632,18 @@ func run(r *core.Run) {
 			}
 		}
 	}
+	// long documents: N units for N around every power of ten and of two a per-document counter might be bounded by
+	longNs := []int{1000, 4095, 4096, 4097, 9999, 10000, 10001, 20001, 65535, 65536, 65537}
+	if thorough {
+		longNs = append(longNs, 3333, 3334, 5000, 5001, 32767, 32768, 99999, 100001, 131073, 300001)
+	}
+	for _, u := range longUnits {
+		for _, n := range longNs {
+			bcs = append(bcs, bcase{Mode: "long", Kind: u.kind, Len: n})
+		}
+	}
+	r.Bound("T-bound.long_document_units", longNs)
+	r.Bound("T-bound.long_document_unit_kinds", len(longUnits))
 	r.Bound("T-bound.window", bufSize)
 	r.Bound("T-bound.cases", len(bcs))
 	r.Bound("T-bound.item_kinds", len(placeItems))
